@@ -772,7 +772,9 @@ func TestEnumRange(t *testing.T) {
 			}
 		}
 	}
-	stats.G().Extra("enum_range_bound_n", uint64(bound))
+	if shard == 0 && curPath() == "generic" || !hwAVX2 && shard == 0 {
+		stats.G().Extra("enum_range_bound_n", uint64(bound)) // reported once, not summed over shards
+	}
 	stats.G().Extra("enum_range_cases_"+curPath(), uint64(total))
 }
 
@@ -813,7 +815,9 @@ func TestEnumFree(t *testing.T) {
 	for n := 0; n <= bound; n++ {
 		rec(n, nil, 0)
 	}
-	stats.G().Extra("enum_free_bound_n", uint64(bound))
+	if shard == 0 && curPath() == "generic" || !hwAVX2 && shard == 0 {
+		stats.G().Extra("enum_free_bound_n", uint64(bound)) // reported once, not summed over shards
+	}
 	stats.G().Extra("enum_free_cases_"+curPath(), uint64(total))
 }
 
